@@ -90,6 +90,8 @@ def gen(r, tier):
             c = r.below(100)
             if c < 35:
                 p, sh, od = gen_prog(r, shards, ordered, list(range(len(shards))))
+                if r.chance(1, 6):
+                    p = "EXCLUSIVE ; " + p     # an exclusive Func (machines of its own) consuming results computed elsewhere
                 ops.append("run " + p); shards.append(sh); ordered.append(od)
             elif c < 55:
                 ops.append("scan %d" % k)
